@@ -1,7 +1,7 @@
 (** Correspondence and property oracles for Spec.Step / Spec.Walk
     (C04-C08, C18): what the generated cases_step_*.v / cases_walk_*.v files
     evaluate.  Each property compares only the observables it is about. *)
-From Sheens Require Export Corr.Base Spec.Contain Model.Action Spec.WalkSpec Spec.GuardLog.
+From Sheens Require Export Corr.Base Spec.Contain Model.Action Spec.WalkSpec Spec.GuardLog Spec.SilentSpec.
 
 Inductive go_err : Type :=
 | GNone | GNotCompiled | GUnknownNode | GUncompiled | GBadBranching | GTooMany | GOther.
@@ -233,24 +233,9 @@ Definition c07_step_mismatches (cases : list scase) : list nat :=
                         end) 0 cases.
 
 (** the implementation's own account: a stride whose end state gained the binding "actionError" is the stride of an
-    action that failed, and reports no message *)
-Definition has_key (k : string) (s : option state) : bool :=
-  match s with
-  | Some st => match lookup k (copy_bs (st_bs st)) with Some _ => true | None => false end
-  | None => false
-  end.
-(** (a native action that hands back an execution together with its error is the one exception Step makes: what
-    such an execution holds is reported, and the model says so too) *)
-Definition hands_back_on_error (sp : aspec) (sd : stride) : bool :=
-  match find_node (st_node (sd_from sd)) (sp_nodes sp) with
-  | Some n => match nd_action n with Some (Native _ true) => true | _ => false end
-  | None => false
-  end.
-Definition failed_action_silent (sp : aspec) (sd : stride) : bool :=
-  if has_key "actionError" (sd_to sd) && negb (has_key "actionError" (Some (sd_from sd)))
-     && negb (hands_back_on_error sp sd)
-  then match sd_emitted sd with [] => true | _ => false end
-  else true.
+    action that failed, and reports no message (a native action that hands back an execution together with its
+    error is the one exception Step makes).  [has_key], [hands_back_on_error] and [failed_action_silent] are defined
+    in Spec/SilentSpec.v (exported above); Proofs/C08Silent.v proves that the model itself satisfies the clause. *)
 
 (** C08: emitted lists only *)
 Definition c08_step_violations (cases : list scase) : list nat :=
